@@ -26,7 +26,7 @@ def fee_expect(p, side):
     rate = m(side + '_fee_rate'); acct = m(side + '_fee_account')
     rs, as_ = p.variant_of(rate), p.variant_of(acct)
     if rs == 'Some' and as_ == 'Some':
-        both_empty = p.holds(EQ(S(''), SOMEV(acct)), True) is not None and p.holds(EQ(S(''), SOMEV(rate)), True) is not None
+        both_empty = p.str_empty(SOMEV(acct)) is not None and p.str_empty(SOMEV(rate)) is not None
         if both_empty: return ('adt', 'std::option::Option', 'None', ())
         return ('adt', 'std::option::Option', 'Some', (('0', ('adt', 'common::FeeInfo', 'FeeInfo', (('account', ('ok', ('rcall', 'addr_validate', (SOMEV(acct),)))), ('rate', SOMEV(rate))))),))
     if rs == 'None' and as_ == 'None': return 'keep'
